@@ -561,6 +561,15 @@ func execSchedOnce(c *ctx, line, prop string, f []string) (string, bool) {
 			break
 		}
 	}
+	// C13 with readers that pinned older states: once every call has returned and the rotation
+	// goroutine is idle (or gone) no reference is left, every finalizer has run -- the directory
+	// holds exactly the files of the segments the committed metadata lists (Props/C13Conc.v:
+	// every handle outside the current state has been closed, by the finalizer that deletes the file)
+	if !deadlock && atomic.LoadInt32(&s.stray) == 0 {
+		if msg := dirVsMeta(vfs, meta); msg != "" {
+			c.witness("C13", "unlisted-file-after-readers", "all calls returned, rotation goroutine idle: "+msg, line)
+		}
+	}
 	rotExited := "x"
 	_, openH, multiH := vfs.account()
 	metaCloses := meta.closes
@@ -1039,4 +1048,25 @@ func genSchedC06(c *ctx, emit func(string)) {
 	if c.tier == "thorough" {
 		emit(fmt.Sprintf("#race %x %x %x", c.seed*10+7, 8, 20000))
 	}
+}
+
+// dirVsMeta compares the files of the in-memory directory with the segments of the committed metadata
+func dirVsMeta(vfs *memVFS, meta *memMeta) string {
+	meta.mu.Lock()
+	want := map[string]bool{}
+	for _, si := range meta.state.Segments {
+		want[segment.FileName(si)] = true
+	}
+	meta.mu.Unlock()
+	names, _ := vfs.ListDir("")
+	for _, n := range names {
+		if !want[n] {
+			return "file " + n + " is in the directory but not listed in the committed metadata"
+		}
+		delete(want, n)
+	}
+	for n := range want {
+		return "segment file " + n + " is listed in the committed metadata but missing"
+	}
+	return ""
 }
